@@ -121,3 +121,26 @@ Theorem C20_repeated_query_repeats : forall o n,
   0 < n -> fst (obj_island_sdk (snd (obj_island_sdk o n)) n) = fst (obj_island_sdk o n).
 Proof. exact repeated_query_repeats. Qed.
 Print Assumptions C20_repeated_query_repeats.
+
+(* ---- SDK client routing over time ---------------------------------------------------------- *)
+
+(* The client's answer is the most recent table assignment covering the name's island ... *)
+Theorem C20_route_sound : forall tb island h,
+  route_h tb island = Some h ->
+  exists pre lo hi post, tb = pre ++ (h, (lo, hi)) :: post /\ lo <= island /\ island <= hi /\
+    route_h post island = None.
+Proof. exact route_h_sound. Qed.
+Print Assumptions C20_route_sound.
+
+(* ... every covered island is routed ... *)
+Theorem C20_route_complete : forall tb island h lo hi,
+  In (h, (lo, hi)) tb -> lo <= island -> island <= hi -> route_h tb island <> None.
+Proof. exact route_h_complete. Qed.
+Print Assumptions C20_route_complete.
+
+(* ... and nothing but the island of the name and the current table enters (not the Path
+   string, not earlier lookups, not earlier tables). *)
+Theorem C20_route_depends_on_island_only : forall tb t t' n,
+  island_sdk t n = island_sdk t' n -> route_h tb (island_sdk t n) = route_h tb (island_sdk t' n).
+Proof. exact route_depends_on_island_only. Qed.
+Print Assumptions C20_route_depends_on_island_only.
